@@ -99,7 +99,8 @@ Definition reason_b (t : tin) (out : list nat) (f : feat) (j : nat) : bool :=
   match nth j (f_spec f) None with
   | None => true                                              (* undefined *)
   | Some s =>
-      (s <? m_sthresh (nth j (t_ms t) dflt_m))               (* below the minimum association *)
+      (s <=? 0)                                               (* no association at all *)
+      || (s <? m_sthresh (nth j (t_ms t) dflt_m))            (* below the minimum association *)
       || (let better := filter (fun g => match spec_at t g j with Some sg => s <=? sg | None => false end) out in
           (Nat.leb (t_nbest t) (List.length better))               (* n_best better features returned *)
           || existsb (fun fl => existsb (fun g => fl_thresh fl <=? fst (assoc_at fl (f_id f) g)) better)
